@@ -11,6 +11,12 @@ template<class Fam> static OperandSpec opnd(const std::string& name, int k, bool
   for (const char* p = vals; *p; ++p) s.vals.push_back(*p - '0');
   return s;
 }
+// an operand that is itself a merge result: (k, vals) merged with (k2, vals2)
+template<class Fam> static OperandSpec opnd_merged(const std::string& name, int k, const char* vals, int k2, const char* vals2, bool hra, uint64_t fill) {
+  OperandSpec s = opnd<Fam>(name, k, hra, vals, fill); s.merged = true; s.cfg2.k = k2; s.cfg2.hra = hra;
+  for (const char* p = vals2; *p; ++p) s.vals2.push_back(*p - '0');
+  return s;
+}
 // value-index strings: each char is an index into Dom<T>::values()
 static std::string rep(const char* pat, int n) { std::string s; size_t L = strlen(pat); for (int i = 0; i < n; ++i) s += pat[i % L]; return s; }
 
@@ -30,7 +36,7 @@ static void add_tasks(std::vector<Task>& tasks, const Config& cfg, const std::st
     }
     { // (b) updates and merges with the operand menu (lvalue, rvalue, reversed), shallow
       QuantSys<Fam> sys; sys.nm = tag + "/merge-mix"; sys.slot_cfgs.push_back(c); sys.max_n = mix_max_n; sys.menu = menu;
-      sys.add_update_ops(0, false); sys.add_menu_ops();
+      sys.add_update_ops(0, false); sys.add_query_op(0); sys.add_menu_ops();   // a query builds the cached sorted view: later merges must invalidate it
       BfsLimits lim; lim.max_depth = mix_depth; lim.max_states = 1500000; lim.grid = grid;
       Task t; t.name = sys.nm; t.fn = [sys, lim, &cfg](Report& rep) mutable { explore(sys, rep, cfg, lim); };
       tasks.push_back(t);
@@ -57,6 +63,8 @@ int main(int argc, char** argv) {
     m.push_back(opnd<F>("n9c0", 8, true, rep("3210", 9).c_str(), 0)); m.push_back(opnd<F>("n9c1", 8, true, rep("3210", 9).c_str(), 1));
     m.push_back(opnd<F>("n26c0", 8, true, rep("0312", 26).c_str(), 0)); m.push_back(opnd<F>("n26c1", 8, true, rep("0312", 26).c_str(), 1));
     m.push_back(opnd<F>("k9n12", 9, true, rep("1203", 12).c_str(), 1)); m.push_back(opnd<F>("k16n3", 16, true, "312", 0)); m.push_back(opnd<F>("k16n20", 16, true, rep("2013", 20).c_str(), 0));
+    m.push_back(opnd_merged<F>("k8n2+n26", 8, "03", 8, rep("0312", 26).c_str(), true, 0));      // level 0 empty after the merge
+    m.push_back(opnd_merged<F>("k16n20+k9n12", 16, rep("2013", 20).c_str(), 9, rep("1203", 12).c_str(), true, 1));   // min_k below k
     add_tasks<F>(tasks, cfg, "kll-float", cfgs, m, q ? 19 : 27, q ? 3 : 4, 60, 3);
   }
   { // KLL string with a reversing comparator
@@ -65,6 +73,7 @@ int main(int argc, char** argv) {
     std::vector<OperandSpec> m;
     m.push_back(opnd<F>("empty", 8, true, "", 0)); m.push_back(opnd<F>("one", 8, true, "1", 0));
     m.push_back(opnd<F>("n9c1", 8, true, rep("0123", 9).c_str(), 1)); m.push_back(opnd<F>("n26c0", 8, true, rep("2031", 26).c_str(), 0)); m.push_back(opnd<F>("k10n14", 10, true, rep("3012", 14).c_str(), 0));
+    m.push_back(opnd_merged<F>("k8n2+n26", 8, "03", 8, rep("0312", 26).c_str(), true, 1));
     add_tasks<F>(tasks, cfg, "kll-string-rev", cfgs, m, q ? 12 : 19, q ? 3 : 4, 50, 3);
   }
   { // REQ float, HRA and LRA, both construction coins
@@ -76,6 +85,7 @@ int main(int argc, char** argv) {
       m.push_back(opnd<F>("empty", 4, hra, "", 0)); m.push_back(opnd<F>("one", 4, hra, "2", 0)); m.push_back(opnd<F>("n10", 4, hra, rep("0123", 10).c_str(), 0));
       m.push_back(opnd<F>("n24c0", 4, hra, rep("3201", 24).c_str(), 0)); m.push_back(opnd<F>("n24c1", 4, hra, rep("3201", 24).c_str(), 1));
       m.push_back(opnd<F>("n60c1", 4, hra, rep("0132", 60).c_str(), 1)); m.push_back(opnd<F>("k6n40", 6, hra, rep("1230", 40).c_str(), 0));
+      m.push_back(opnd_merged<F>("n3+n60", 4, "031", 4, rep("0132", 60).c_str(), hra, 0));
       std::vector<Cfg> sub; for (size_t i = 0; i < cfgs.size(); ++i) if (cfgs[i].hra == hra) sub.push_back(cfgs[i]);
       add_tasks<F>(tasks, cfg, "req-float", sub, m, q ? 30 : 52, q ? 3 : 4, 120, q ? 2 : 3);
     }
@@ -87,6 +97,7 @@ int main(int argc, char** argv) {
     m.push_back(opnd<F>("empty", 2, true, "", 0)); m.push_back(opnd<F>("one", 2, true, "3", 0)); m.push_back(opnd<F>("k2n3", 2, true, "102", 0));
     m.push_back(opnd<F>("k2n4", 2, true, "3120", 0)); m.push_back(opnd<F>("k2n13c0", 2, true, rep("2301", 13).c_str(), 0)); m.push_back(opnd<F>("k2n13c1", 2, true, rep("2301", 13).c_str(), 1));
     m.push_back(opnd<F>("k4n5", 4, true, "01232", 0)); m.push_back(opnd<F>("k4n19c1", 4, true, rep("3021", 19).c_str(), 1)); m.push_back(opnd<F>("k8n40c0", 8, true, rep("0123", 40).c_str(), 0));
+    m.push_back(opnd_merged<F>("k2n4+k2n4", 2, "3120", 2, "0213", true, 0));   // n = 8 = 4k: base buffer and level 0 both empty
     add_tasks<F>(tasks, cfg, "classic-int", cfgs, m, q ? 13 : 18, q ? 3 : 4, 70, 3, 32);   // down-sampling offsets have at most 8 outcomes here: grid 32 >= 4x
   }
   {
